@@ -292,7 +292,7 @@ ExtractTypedef ==
       LET s == StmtAt(M.body, ip)
           name == FreshName("t")
           td == [n |-> name, ty |-> s.ty, dflt |-> IF moveD THEN s.dflt ELSE "", units |-> IF moveU THEN s.units ELSE ""]
-          s1 == [s EXCEPT !.ty = [p |-> "", n |-> name, rng |-> "", len |-> "", en |-> << >>, base |-> NoBase],
+          s1 == [s EXCEPT !.ty = [p |-> "", n |-> name, rng |-> "", len |-> "", en |-> << >>, base |-> NoBase, mem |-> << >>, path |-> << >>],
                           !.dflt = IF moveD THEN "" ELSE s.dflt, !.units = IF moveU THEN "" ELSE s.units]
           parent == SubSeq(ip, 1, Len(ip) - 1)
       IN /\ s.k \in {"leaf", "leaflist"} /\ IsPlainPath(ip) /\ s.ty.p = "" /\ s.ty.n \in Builtins
@@ -311,7 +311,7 @@ ChainTypedef ==
       LET t == M.tds[i]
           name == FreshName("t")
           lower == [t EXCEPT !.n = name]
-          upper == [n |-> t.n, ty |-> [p |-> "", n |-> name, rng |-> "", len |-> "", en |-> << >>, base |-> NoBase], dflt |-> "", units |-> ""]
+          upper == [n |-> t.n, ty |-> [p |-> "", n |-> name, rng |-> "", len |-> "", en |-> << >>, base |-> NoBase, mem |-> << >>, path |-> << >>], dflt |-> "", units |-> ""]
       IN Step([ms EXCEPT ![Main] = [M EXCEPT !.tds = [@ EXCEPT ![i] = upper] \o << lower >>]])
 
 \* T3: what a leaf inherits from its typedef chain is stated on the leaf itself, or a stated value that
@@ -337,7 +337,8 @@ RECURSIVE MapTypes(_, _, _)
 MapTypes(ss, name, prefix) ==
     [ i \in DOMAIN ss |->
         LET s == ss[i]
-            fix(ty) == IF ty.p = "" /\ ty.n = name THEN [ty EXCEPT !.p = prefix] ELSE ty
+            fix1(ty) == IF ty.p = "" /\ ty.n = name THEN [ty EXCEPT !.p = prefix] ELSE ty
+            fix(ty) == [fix1(ty) EXCEPT !.mem = [ j \in DOMAIN @ |-> fix1(@[j]) ]]
         IN [s EXCEPT !.ty = fix(s.ty),
                      !.c = MapTypes(s.c, name, prefix),
                      !.tds = [ j \in DOMAIN s.tds |-> [s.tds[j] EXCEPT !.ty = fix(@)] ],
@@ -346,7 +347,8 @@ MapTypes(ss, name, prefix) ==
                      !.aug = [ j \in DOMAIN s.aug |-> [s.aug[j] EXCEPT !.c = MapTypes(s.aug[j].c, name, prefix)] ]] ]
 
 MapTypesModule(m, name, prefix) ==
-    LET fix(ty) == IF ty.p = "" /\ ty.n = name THEN [ty EXCEPT !.p = prefix] ELSE ty IN
+    LET fix1(ty) == IF ty.p = "" /\ ty.n = name THEN [ty EXCEPT !.p = prefix] ELSE ty
+        fix(ty) == [fix1(ty) EXCEPT !.mem = [ j \in DOMAIN @ |-> fix1(@[j]) ]] IN
     [m EXCEPT !.body = MapTypes(m.body, name, prefix),
               !.tds = [ j \in DOMAIN m.tds |-> [m.tds[j] EXCEPT !.ty = fix(@)] ],
               !.gs = [ j \in DOMAIN m.gs |-> [m.gs[j] EXCEPT !.c = MapTypes(m.gs[j].c, name, prefix),
@@ -365,6 +367,7 @@ TypedefToImport ==
       LET t == M.tds[i]
           tds1 == SubSeq(M.tds, 1, i - 1) \o SubSeq(M.tds, i + 1, Len(M.tds))
       IN /\ t.ty.p = "" /\ t.ty.n \in Builtins /\ t.ty.base = NoBase
+         /\ \A j \in DOMAIN t.ty.mem : t.ty.mem[j].p = "" /\ t.ty.mem[j].n \in Builtins
          /\ "ix" \notin DOMAIN ms
          \* no local typedef of the same name anywhere (the unprefixed name keeps meaning the local one)
          /\ \A n \in Family : ~ShadowedIn(ms[n].body, t.n) /\ \A j \in DOMAIN ms[n].gs : IndexOfName(ms[n].gs[j].tds, t.n) = 0 /\ ~ShadowedIn(ms[n].gs[j].c, t.n)
